@@ -235,7 +235,7 @@ def h_total(env, ops, n, func_ops=None):
     env.check_eq(tot, norm2(psi), f"sum over outcome strings {sorted(strings)} of success probabilities == <psi|psi>")
 
 
-def h_random(env, ops, n, func_ops=None):
+def h_random(env, ops, n, func_ops=None, shots=1):
     """no desired result: one shot with a uniform draw u_k per measurement supplied by the harness (SYMBOLIC in symbolic
     mode); the recorded outcome string, the statevector and the applied gates must be those of the branch the draws
     selected, and outcome 1 is taken exactly when P(0) < u (Born rule)"""
@@ -250,7 +250,7 @@ def h_random(env, ops, n, func_ops=None):
         cm = lambda m: fg[m]  # noqa
     circ = Circuit(gates, n_qubits=n, cmeasure_control=cm)
     psi = R.basis_state(n, 0)
-    b = make_backend(env, n_shots=1)
+    b = make_backend(env, n_shots=shots)
     us = []
 
     def fake_random(*a):
@@ -269,17 +269,30 @@ def h_random(env, ops, n, func_ops=None):
         bk.__dict__["_verif_np"] = bk.__dict__["np"]
         bk.__dict__["np"] = NpR()
         try:
-            freqs, sv = b.simulate(circ, return_statevector=True)
+            freqs, sv = b.simulate(circ, return_statevector=(shots == 1))
         finally:
             bk.__dict__["np"] = bk.__dict__.pop("_verif_np")
     else:
         orig = real_np.random.random
         real_np.random.random = fake_random
         try:
-            freqs, sv = b.simulate(circ, return_statevector=True)
+            freqs, sv = b.simulate(circ, return_statevector=(shots == 1))
         finally:
             real_np.random.random = orig
     outs = list(circ.success_probabilities)
+    if shots > 1:
+        # several shots: every recorded outcome string carries the Born probability of ITS branch (not an accumulation over
+        # shots), the empirical frequencies are multiples of 1/shots and sum to 1
+        env.check_true(1 <= len(outs) <= shots, "at most one outcome string per shot", detail=str(outs))
+        for s in outs:
+            phi, _ = run_branch(B, ops, n, psi, list(s), func_ops)
+            env.check_eq(circ.success_probabilities[s], norm2(phi), f"{shots} shots: recorded probability of outcome string {s} == branch probability")
+        tot = 0
+        for k, v in freqs.items():
+            tot = tot + v
+            env.check_true(abs(v * shots - round(v * shots)) < 1e-9, "frequencies are multiples of 1/n_shots")
+        env.check_true(abs(tot - 1) < 1e-9, "frequencies sum to 1")
+        return
     env.check_true(len(outs) == 1, "one shot records one outcome string", detail=str(outs))
     s = outs[0]
     env.check_true(len(us) == len(s), "one uniform draw per measurement performed", detail=f"{len(us)} draws for outcome string {s}")
@@ -304,6 +317,28 @@ def h_random(env, ops, n, func_ops=None):
             want = "1" if complex(p0).real < us[0] else "0"
             if abs(complex(p0).real - us[0]) > 1e-9:
                 env.check_same(s[0], want, "first outcome follows the Born rule for the supplied draw u0")
+
+
+def h_oneshot_saved(env, ops, n):
+    """MEASURE-only circuit, n_shots=1, save_mid_circuit_meas + return_statevector, no desired result (the single-run branch of
+    the cirq target): whatever outcome the run produced, the string reported in mid_circuit_meas_freqs lists the outcomes in
+    the order of the MEASURE gates of the circuit, and the returned statevector is the normalised branch state of that string"""
+    from tangelo.linq import Circuit
+    B = Builder(env)
+    circ = Circuit(B.gates(ops), n_qubits=n)
+    psi = R.basis_state(n, 0)
+    b = make_backend(env, n_shots=1)
+    freqs, sv = b.simulate(circ, return_statevector=True, save_mid_circuit_meas=True)
+    mid = dict(b.mid_circuit_meas_freqs)
+    nm = sum(1 for op in ops if op[0] == "m")
+    env.check_true(len(mid) == 1 and len(list(mid)[0]) == nm, "one shot: one mid-circuit outcome string with one character per MEASURE", detail=str(mid))
+    s = list(mid)[0]
+    phi, _ = run_branch(B, ops, n, psi, list(s))
+    pb = norm2(phi)
+    env.check_true(not ((isinstance(pb, Sym) and pb.p.is_zero()) or (not isinstance(pb, Sym) and abs(complex(pb)) < 1e-28)),
+                   f"the reported outcome string {s} has non-zero probability")
+    r = _sqrt(env, pb)
+    env.check_vec_eq([x * r for x in list(sv)], phi, f"returned statevector == normalised branch state of the reported string {s} (outcomes in gate order)")
 
 
 def _first_meas(ops):
@@ -445,6 +480,8 @@ SHAPES1 = {
                 {"0": [("g", "RX", [1], [])], "1": [("g", "X", [0], []), ("cmf_stop",)]}),
 }
 # the function-controlled example must not recurse: replace the marker
+# the LATER measurement acts on a shallower qubit (simulators that schedule by depth execute it first)
+SHAPES1["m-depth"] = ([RY0, ("g", "H", [0], []), ("g", "RZ", [0], []), ("g", "RX", [1], []), ("m", 0), ("m", 1)], 2, None)
 SHAPES1["cm-func"] = (SHAPES1["cm-func"][0], 2, {"0": [("g", "RX", [1], [])], "1": [("g", "X", [0], [])]})
 
 
@@ -467,12 +504,16 @@ def shapes(tier, seed):
         for s in outcome_strings(ops, fops):
             kinds = [None] if fops is None else ["func", "class"]
             for kind in kinds:
-                for init in ((False, True) if tier == "thorough" or nm in ("m0", "cm-dict", "mm-adjacent", "m-first") else (False,)):
+                for init in ((False, True) if tier == "thorough" or nm in ("m0", "cm-dict", "mm-adjacent", "m-first", "m-depth") else (False,)):
                     out.append(Shape(f"desired/{nm}/{s}/{kind or 'plain'}/init={int(init)}", h_desired,
                                      dict(ops=ops, n=n, outcome=s, init=init, func_ops=fops, control_kind=kind), modules=MODS))
         out.append(Shape(f"total/{nm}", h_total, dict(ops=ops, n=n, func_ops=fops), modules=MODS))
+        if not any(op[0] in ("cm", "cmf") for op in ops):
+            out.append(Shape(f"oneshot-saved/{nm}", h_oneshot_saved, dict(ops=ops, n=n), modules=MODS, max_paths=64))
         if any(op[0] in ("cm", "cmf") for op in ops):
             out.append(Shape(f"random/{nm}", h_random, dict(ops=ops, n=n, func_ops=fops), modules=MODS, max_paths=64))
+            if nm in ("cm-dict", "cm-func") or tier == "thorough":
+                out.append(Shape(f"random/{nm}/shots2", h_random, dict(ops=ops, n=n, func_ops=fops, shots=2), modules=MODS, max_paths=128))
     out.append(Shape("canary/desired/sign", h_desired, dict(ops=SHAPES1["m0"][0], n=2, outcome="1", init=False, canary=True),
                      modules=MODS, canary=True))
     for nm in ("m0", "m1-m0", "3q"):
